@@ -550,20 +550,22 @@ fn clearly_unsafe(a: &ArgMeta) -> bool {
             if a.legacy_safe {
                 return false;
             }
-            // undeclared: unsafe when every leaf is an undeclared primitive
-            fn leaf_unsafe(t: &Ty) -> bool {
+            // undeclared: certainly not safe when an undeclared primitive is reachable
+            // without passing an explicit declaration (unions, recursion: C08's business)
+            fn leaf_unsafe(t: &Ty, depth: u32) -> bool {
                 match t {
                     Ty::Prim(_) => true,
-                    Ty::Opt(i) | Ty::List(i) | Ty::Set(i) => leaf_unsafe(i),
-                    Ty::Map(k, v) => leaf_unsafe(k) || leaf_unsafe(v),
+                    Ty::Opt(i) | Ty::List(i) | Ty::Set(i) => leaf_unsafe(i, depth),
+                    Ty::Map(k, v) => leaf_unsafe(k, depth) || leaf_unsafe(v, depth),
                     Ty::Ref(n) => match &ir().defs[n] {
-                        Def::Alias(i, None) => leaf_unsafe(i),
+                        Def::Alias(i, None) => leaf_unsafe(i, depth),
                         Def::Alias(_, Some(s)) => s != "SAFE",
-                        _ => false, // type-derived safety is C08's business: don't care
+                        Def::Object(fields) if depth < 3 => fields.iter().any(|(_, f)| leaf_unsafe(f, depth + 1)),
+                        _ => false,
                     },
                 }
             }
-            leaf_unsafe(&a.ty)
+            leaf_unsafe(&a.ty, 0)
         }
     }
 }
